@@ -368,7 +368,7 @@ def _check_sdp_from_eigen(w, tol=None):
     Eigenvalues to check for non semidefinite positiveness.
 
   tol : positive `float`, optional
-    Absolute eigenvalues below tol are considered zero. If
+    Absolute eigenvalues not above tol are considered zero. If
     tol is None, and eps is the epsilon value for datatype of w, then tol
     is set to abs(w).max() * len(w) * eps.
 
@@ -388,7 +388,7 @@ def _check_sdp_from_eigen(w, tol=None):
     raise ValueError("tol should be positive.")
   if any(w < - tol):
     raise NonPSDError()
-  if any(abs(w) < tol):
+  if any(abs(w) <= tol):  # (<=: the zero matrix, whose tol is 0, is singular)
     return False
   return True
 
